@@ -34,6 +34,7 @@
 #include <signal.h>
 #include <unistd.h>
 #include <sys/time.h>
+#include <fcntl.h>
 #include "giverror.h"
 using namespace Givaro;
 
@@ -47,9 +48,15 @@ static volatile long g_case = 0, g_case_seen = -1;
 static char g_case_name[2400] = "";
 static void set_case_name(const std::string& s) { strncpy(g_case_name, s.c_str(), sizeof g_case_name - 1); g_case_name[sizeof g_case_name - 1] = 0; }
 static std::string (*g_case_fmt)() = 0;      // formats the case being executed (enumerations keep only a pointer)
+static volatile int g_cur_op = -1;           // index of the operation of the current sequence that is being executed (named in the report)
+static const char* g_stuck_flag = 0;         // C17_STUCK_FLAG: a file shared by the parallel workers of one stream; the first worker that finds a case
+                                             // that does not return creates it, the others leave at their next tick (exit 98): a hang costs ONE budget, not N
 static void on_prof(int) {
+    if (g_stuck_flag && access(g_stuck_flag, F_OK) == 0) _exit(98);
     if (g_case_seen == g_case) {
         if (g_case_fmt) { std::string d = g_case_fmt(); strncat(g_case_name, " :: ", sizeof g_case_name - strlen(g_case_name) - 1); strncat(g_case_name, d.c_str(), sizeof g_case_name - strlen(g_case_name) - 1); }
+        if (g_cur_op >= 0) { char b[32]; snprintf(b, sizeof b, " @op=%d", (int) g_cur_op); strncat(g_case_name, b, sizeof g_case_name - strlen(g_case_name) - 1); }
+        if (g_stuck_flag) { int fd = open(g_stuck_flag, O_CREAT | O_WRONLY, 0644); if (fd >= 0) close(fd); }
         static const char msg[] = "\nDOES-NOT-RETURN ";
         if (write(1, msg, sizeof msg - 1) < 0) {}
         if (write(1, g_case_name, strlen(g_case_name)) < 0) {}
@@ -59,7 +66,8 @@ static void on_prof(int) {
     g_case_seen = g_case;
 }
 static void start_watchdog() {
-    const char* b = getenv("C17_CPU_BUDGET"); long sec = b ? atol(b) : 20; if (sec <= 0) return;
+    const char* b = getenv("C17_CPU_BUDGET"); long sec = b ? atol(b) : 5; if (sec <= 0) return;     // a case is reported after between 1x and 2x this many seconds of CPU
+    g_stuck_flag = getenv("C17_STUCK_FLAG");
     struct sigaction sa; memset(&sa, 0, sizeof sa); sa.sa_handler = on_prof; sigaction(SIGPROF, &sa, 0);
     struct itimerval it; it.it_interval.tv_sec = sec; it.it_interval.tv_usec = 0; it.it_value = it.it_interval; setitimer(ITIMER_PROF, &it, 0);
 }
@@ -361,6 +369,7 @@ template <class T> static std::string cmd_seq(bool stop, const Fx& fx, bool addr
         Op o = parse_op(toks[k]);
         int d = w.defect(fx, o);
         if (stop && d) { out << "| df=" << d << " "; break; }
+        g_cur_op = (int) k;
         w.apply(o);
         std::string diff = w.oracle_diff();
         out << "| " << w.show();
@@ -438,6 +447,7 @@ template <class T> struct Enum {
             Op o = op_of(seq[k], (int) k);
             int d = w.defect(fx, o);
             if (d) { dk = (int) k; dcode = d; break; }
+            g_cur_op = (int) k;
             w.apply(o);
         }
         if (dk >= 0) {
@@ -656,6 +666,7 @@ static std::string cmd_rcq(const std::vector<std::string>& toks) {
     for (size_t k = 0; k < toks.size(); ++k) {
         ROp o = parse_rop(toks[k]);
         if (w.refused_as_is(o.kind, o.i, o.a)) { out << "| df=refused "; break; }
+        g_cur_op = (int) k;
         w.apply(o.kind, o.i, o.a);
         out << "| " << w.show();
         std::string d = w.oracle_diff();
@@ -685,6 +696,7 @@ struct REnum {
         ++g_case; g_cur_rseq = &seq;
         for (size_t k = 0; k < seq.size() && d.empty(); ++k) {
             if (w.refused_as_is(seq[k].kind, seq[k].i, seq[k].a)) { cut = true; break; }
+            g_cur_op = (int) k;
             w.apply(seq[k].kind, seq[k].i, seq[k].a); d = w.oracle_diff();
         }
         if (cut) { mix(-200); w.cleanup(); return; }
@@ -811,7 +823,7 @@ int main() {
     while (std::getline(std::cin, line)) {
         std::vector<std::string> t; { std::stringstream ss(line); std::string x; while (ss >> x) t.push_back(x); }
         if (t.empty()) continue;
-        ++g_case; set_case_name(line.substr(0, 2000));
+        ++g_case; g_cur_op = -1; set_case_name(line.substr(0, 2000));
         std::string r;
         if (t[0] == "tab") {
             int bad = 0; for (size_t i = 1; i < t.size() && i <= 512; ++i) if (strtoull(t[i].c_str(), 0, 10) != tabsize_at((int) i - 1)) ++bad;
